@@ -440,7 +440,7 @@ func runCompileShape(c *Ctx, r *Result, rule string) {
 		o := Obligation{Rule: rule, Key: fmt.Sprintf("jsonata.Compile:return#%d", n), Fn: "jsonata.Compile", Pos: c.W.Pos(ret.Pos()), Nontrivial: true}
 		ev, ex := ret.Results[1], ret.Results[0]
 		if k, isK := ev.(*ssa.Const); isK && k.IsNil() {
-			if _, isAlloc := ex.(*ssa.Alloc); isAlloc {
+			if alwaysFreshAlloc(ex, 0) {
 				o.Verdict, o.Reason = Discharged, "success: a freshly allocated *Expr with a nil error"
 			} else {
 				o.Verdict, o.Reason = Finding, "Compile returns a nil error without a freshly built expression"
@@ -560,4 +560,31 @@ func runCompileShape(c *Ctx, r *Result, rule string) {
 		o.Verdict, o.Reason = Discharged, "MustCompile panics exactly on the err != nil edge of Compile and otherwise returns Compile's expression"
 	}
 	r.Add(o)
+}
+
+// alwaysFreshAlloc: v is a new object (never nil): an allocation, or the result of a module
+// function (a small constructor) whose every return is one.
+func alwaysFreshAlloc(v ssa.Value, depth int) bool {
+	switch x := v.(type) {
+	case *ssa.Alloc:
+		return true
+	case *ssa.Call:
+		callee := x.Call.StaticCallee()
+		if callee == nil || len(callee.Blocks) == 0 || depth >= 3 {
+			return false
+		}
+		rets := 0
+		for _, b := range callee.Blocks {
+			ret, ok := b.Instrs[len(b.Instrs)-1].(*ssa.Return)
+			if !ok {
+				continue
+			}
+			rets++
+			if len(ret.Results) == 0 || !alwaysFreshAlloc(ret.Results[0], depth+1) {
+				return false
+			}
+		}
+		return rets > 0
+	}
+	return false
 }
